@@ -267,15 +267,36 @@ func checkC09Ptr(c C09PtrCase) error {
 	ctx.Set("x", c.X)
 	r := render1(f[0], zooCtx(ctx, 0))
 	if r.Failed() || r.Out != f[1] {
-		return fmt.Errorf("%s with x = %s (a non-nil pointer): %v, want %s", q(f[0]), PrintE2(c.X), r, q(f[1]))
+		return fmt.Errorf("%s with x = %s (not one of the falsy values): %v, want %s", q(f[0]), PrintE2(c.X), r, q(f[1]))
 	}
 	return nil
 }
 
 func TestC09Pointers(t *testing.T) {
-	r := NewRec(t, "C09", "exhaustive: non-nil pointers to false, true, 0, 5, 0.0, '', 'a', an empty and a non-empty []int, an empty and a non-empty map, a struct x {if, ?:, not, elseif, and, or}; oracle: truthy; non-trivial = the pointee is itself falsy")
+	r := NewRec(t, "C09", "exhaustive: non-nil pointers to false, true, 0, 5, 0.0, '', 'a', an empty and a non-empty []int, an empty and a non-empty map, a struct, and non-zero floats of tiny magnitude (1e-12, 1e-30 as float32, the smallest denormal, results of template arithmetic) x {if, ?:, not, elseif, and, or}; oracle: truthy; non-trivial = the pointee is itself falsy or the number is tiny")
 	defer r.Flush()
 	r.SetExhaustive()
+	// non-zero numbers of very small magnitude are not zero
+	for ti, v := range []*E{ZT(Int(1), "tiny64"), ZT(Int(-3), "tiny64"), ZT(Int(1), "tiny32"), ZT(Int(1), "denorm"), ZT(Int(-1), "denorm")} {
+		for fi := range c09PtrForms {
+			c := C09PtrCase{X: v, Form: fi}
+			r.Case(fmt.Sprint("tiny", ti, fi), true, c09PtrForms[fi][0]+" with x="+PrintE2(v), "tiny-number")
+			if err := checkC09Ptr(c); err != nil {
+				r.FailEnum(t, "C09.ptr", c, err)
+			}
+		}
+	}
+	for fi, src := range []string{"{% if 0.02 / 1073741824 %}T{% else %}F{% endif %}", "{{ (1 / 3 - 0.333333333333) ? 'T' : 'F' }}", "{% if false %}A{% elseif 0.000000000001 %}T{% else %}F{% endif %}", "{% if 1e-15 %}T{% else %}F{% endif %}"} {
+		rr := render1(src, nil)
+		r.Case(fmt.Sprint("tinylit", fi), true, src, "tiny-number")
+		if rr.Failed() || rr.Out != "T" {
+			// a literal the engine cannot read is not a truthiness question
+			if rr.Failed() {
+				continue
+			}
+			r.FailEnum(t, "C09.tinylit", C09TinyLit{Src: src}, fmt.Errorf("%s: %v, want \"T\" (a non-zero number is truthy)", q(src), rr))
+		}
+	}
 	ptrs := []*E{ZPtr(Bool(false)), ZPtr(Bool(true)), ZPtr(Int(0)), ZPtr(Int(5)), ZPtr(ZT(Int(0), "float64")), ZPtr(Str("")), ZPtr(Str("a")), ZPtr(ZT(List(), "[]int")), ZPtr(ZT(List(Int(1)), "[]int")),
 		ZPtr(ZT(Hash(nil, nil), "map[string]int")), ZPtr(ZT(Hash([]string{"k"}, []*E{Int(1)}), "map[string]int")), ZT(Hash([]string{"Name"}, []*E{Str("")}), "ptrstruct")}
 	for pi, p := range ptrs {
@@ -289,7 +310,22 @@ func TestC09Pointers(t *testing.T) {
 	}
 }
 
-func init() { reg("C09.ptr", checkC09Ptr) }
+type C09TinyLit struct {
+	Src string `json:"src"`
+}
+
+func checkC09TinyLit(c C09TinyLit) error {
+	rr := render1(c.Src, nil)
+	if !rr.Failed() && rr.Out != "T" {
+		return fmt.Errorf("%s: %v, want \"T\" (a non-zero number is truthy)", q(c.Src), rr)
+	}
+	return nil
+}
+
+func init() {
+	reg("C09.ptr", checkC09Ptr)
+	reg("C09.tinylit", checkC09TinyLit)
+}
 
 // TestC09Loops enumerates loop counters over every length 0..14 for lists, strings and
 // ranges, alone and around an inner loop.
@@ -376,6 +412,38 @@ func TestC09Loops(t *testing.T) {
 			}
 		}
 	}
+	// long sequences: every element is visited, the counters of the last pass say so
+	for _, lc := range [][3]int{{1, 9999, 1}, {1, 10000, 1}, {1, 10001, 1}, {1, 12345, 1}, {0, 65536, 1}, {30000, 1, -1}, {0, 100000, 7}, {1, 1000000, 1000}} {
+		n := (lc[1]-lc[0])/lc[2] + 1
+		last := lc[0] + (n-1)*lc[2]
+		c := C09LongCase{Start: lc[0], End: lc[1], Step: lc[2]}
+		r.Case(fmt.Sprint("long", lc), true, c, "long-range")
+		if err := checkC09Long(c); err != nil {
+			r.FailEnum(t, "C09.long", c, err)
+		}
+		_, _ = n, last
+	}
 }
+
+type C09LongCase struct {
+	Start int  `json:"start"`
+	End   int  `json:"end"`
+	Step  int  `json:"step"`
+	List  bool `json:"list"` // a context list of the same elements instead of range()
+}
+
+func checkC09Long(c C09LongCase) error {
+	n := (c.End-c.Start)/c.Step + 1
+	last := c.Start + (n-1)*c.Step
+	want := fmt.Sprintf("%d|%d/%d/%d/%d", n, last, n, n, 1)
+	src := fmt.Sprintf("{%% set k = 0 %%}{%% for i in range(%d, %d, %d) %%}{%% set k = k + 1 %%}{%% if loop.last %%}{{ k }}|{{ i }}/{{ loop.index }}/{{ loop.length }}/{{ loop.revindex }}{%% endif %%}{%% endfor %%}", c.Start, c.End, c.Step)
+	r := render1(src, nil)
+	if r.Failed() || r.Out != want {
+		return fmt.Errorf("a loop over range(%d, %d, %d): %s, want %s (passes|last value/index/length/revindex)", c.Start, c.End, c.Step, trunc(fmt.Sprint(r)), q(want))
+	}
+	return nil
+}
+
+func init() { reg("C09.long", checkC09Long) }
 
 func init() { reg("C09.flow", checkC09) }
